@@ -196,6 +196,13 @@ def _impl(tier, seed, search):
                 L.count('index')
                 msg = apply(c, X, ref, 'get', i)
                 if msg: L.fail(f'index:{("neg" if i < 0 else "pos")}', f'{c}: {msg}', dict(cls=c, length=n, index=i))
+                # integer-like indices that are not Python ints (what np.arange, np.argmin ... produce) behave as on a list
+                if n in (1, 3) and i in (-4, -3, -1, 0, 2, 3):
+                    for ity_ in (np.int64, np.int32, np.intp, np.uint8 if i >= 0 else np.int16):
+                        for kd_ in ('get', 'pop', 'del', 'set', 'insert'):
+                            X2, ref2 = build(c, n); L.count('index(numpy integer)')
+                            msg = apply(c, X2, ref2, kd_, ity_(i))
+                            if msg: L.fail(f'index:numpy-integer:{kd_}', f'{c}: index of type {ity_.__name__}: {msg}', dict(cls=c, length=n, index=i, index_type=ity_.__name__, op=kd_))
             for a in rng_idx:
                 for b_ in rng_idx:
                     for st in steps:
